@@ -41,7 +41,8 @@ type Case struct {
 
 const bufferSize = 128
 
-var pool = []string{"read", "write", "Read", " read", "readwrite", "relay:admin", "host", ""}
+// the first eight are walked through exhaustively, the last two (look-alikes of write) are added at random
+var pool = []string{"read", "write", "Read", " read", "readwrite", "relay:admin", "host", "", "Write", "write "}
 
 func coqStrs(ss []string) string {
 	xs := make([]string, len(ss))
@@ -127,9 +128,9 @@ func genCase(r *lib.Rng, mask int) []Op {
 		name   uint64
 	}
 	parts := make([]*part, nP)
-	parts[0] = &part{scopes: subset(mask, r)}
+	parts[0] = &part{scopes: subset(mask|r.Intn(4)<<8, r)}
 	for i := 1; i < nP; i++ {
-		m := r.Intn(256)
+		m := r.Intn(1024)
 		switch r.Intn(4) {
 		case 0:
 			m |= 3 // reader and writer
